@@ -555,6 +555,43 @@ func kindSequences(r *c.Rng, side string, length, per int, f func(Case)) {
 	}
 }
 
+// witnesses: the minimal inputs of the open findings and their boundaries, run
+// on every check (so that a KNOWN-FINDING line does not depend on the seed).
+func witnesses(f func(Case)) {
+	mod := func(st int, body string, h map[string]string) Act {
+		return Act{Kind: kModRes, Status: st, Body: body, Headers: h}
+	}
+	retry := func(h map[string]string) Act { return Act{Kind: kRetry, Headers: h} }
+	noop := Act{Kind: kNoop}
+	m := func(kv ...string) map[string]string {
+		r := map[string]string{}
+		for i := 0; i+1 < len(kv); i += 2 {
+			r[kv[i]] = kv[i+1]
+		}
+		return r
+	}
+	// F-C07a: a response modification after a retry after a response modification
+	f(Case{Side: "resp", Actions: []Act{mod(200, "b0", m("a", "1")), retry(m()), mod(500, "b2", m("b", "2"))}})
+	f(Case{Side: "resp", Actions: []Act{mod(200, "b0", m("a", "1", "b", "1")), noop, retry(m("r", "1")), noop,
+		mod(201, "b4", m("b", "2")), mod(202, "b5", m("c", "3"))}})
+	// same shape, the later modifications overwrite everything: nothing is lost
+	f(Case{Side: "resp", Actions: []Act{mod(200, "b0", m("a", "1")), retry(m("r", "1")), retry(m()), noop,
+		mod(500, "b4", m("a", "2", "b", "2"))}})
+	// boundaries outside the finding: retries before the first / after the last modification
+	f(Case{Side: "resp", Actions: []Act{retry(m("r", "1")), mod(200, "b1", m("a", "1")), noop, mod(500, "b3", m("a", "2", "b", "2"))}})
+	f(Case{Side: "resp", Actions: []Act{mod(200, "b0", m("a", "1")), mod(500, "b1", m("b", "2")), retry(m("r", "1"))}})
+	// F-C07b: two spellings of one header name
+	f(Case{Side: "req", Actions: []Act{{Kind: kModH, Headers: m("X-A", "1")}, {Kind: kModH, Headers: m("x-a", "2")}}})
+	f(Case{Side: "req", Actions: []Act{{Kind: kModReq, Headers: m("Authorization", "Basic x", "b", "1"), Path: "/p"},
+		noop, {Kind: kGenReq, Headers: m("authorization", "Bearer y"), Body: "b2"}}})
+	f(Case{Side: "resp", Actions: []Act{mod(200, "b0", m("X-A", "1")), mod(500, "b1", m("x-a", "2"))}})
+	// boundaries: one spelling throughout; different headers; an early response wins anyway
+	f(Case{Side: "req", Actions: []Act{{Kind: kModH, Headers: m("X-A", "1", "b", "1")}, {Kind: kModH, Headers: m("X-A", "2")},
+		{Kind: kModH, Headers: m("a", "3")}}})
+	f(Case{Side: "req", Actions: []Act{{Kind: kModH, Headers: m("X-A", "1")}, {Kind: kModH, Headers: m("x-a", "2")},
+		{Kind: kEarly, Status: 429, Body: "e", Headers: m("X-A", "3")}}})
+}
+
 // ---------------------------------------------------------------- main
 
 func main() {
@@ -581,7 +618,8 @@ func main() {
 		"structs (the very struct handed to every transaction), via = loop over the public methods or the real " +
 		"routing fold; systematic part: every triple of modification kinds x reused producer in first / middle / " +
 		"last position of the first transaction and alone in the second x reuse x via, maps {a:1,b:1} {b:2,c:2} " +
-		"{c:3,d:3}; then random sessions. distinct = distinct (inputs, observed result, observed variables); " +
+		"{c:3,d:3}; then random sessions (one transaction in five names a producer twice). First of all the " +
+		"witnesses of the open findings F-C07a / F-C07b and their boundary cases. distinct = distinct (inputs, observed result, observed variables); " +
 		"non-trivial = at least two actions of the sequence are not no-ops (session: some producer carrying " +
 		"headers fires in two transactions and some transaction combines two actions that are not no-ops)")
 	var k Case
@@ -600,6 +638,7 @@ func main() {
 	f := func(k Case) { run(o, k) }
 	run(o, Case{Side: "req"})
 	run(o, Case{Side: "resp"})
+	witnesses(f)
 	o.Exhaustive(true) // within the scope the rule states for the tier
 	switch o.Tier {
 	case "thorough":
@@ -670,7 +709,15 @@ func run(o *c.Out, k Case) {
 	}
 	idx := o.Case(k.Side, coqCase(&k), k, nonNoop >= 2)
 	o.MonitorChecked(1)
-	for _, h := range monitor(o, &k) {
+	hits := monitor(o, &k)
+	// the loop over the public methods (where the resulting action is observed)
+	// and the real routing fold must hand the proxy the same variables
+	if a, b := canonVars(k.Vars), canonVars(k.EncVars); a != b && k.Result.Kind != "panic" {
+		hits = append(hits, c.Hit{Signature: "fold-copy-diverges:" + k.Side,
+			Demanded: "routing.getSPOE*Actions produces the variables of the action the fold over the public " +
+				"Prioritize methods yields: " + b, Observed: a, Case: &k})
+	}
+	for _, h := range hits {
 		h.Suite, h.Index = k.Side, idx
 		o.Hit(h)
 	}
